@@ -306,6 +306,10 @@ def run(M, rec, tier, seed, k, n):
             rec.extra["exhaustive_up_to_nodes"] = 3
     finally:
         mon.uninstall()
+    if k == 0:
+        from vf import workloads as W
+
+        W.repo_tests(rec, [PROP])
 
 
 def finish(M, rec, write=True):
